@@ -319,6 +319,22 @@ def _file_may_match(
             # No bounds available for this column, can't prune
             continue
 
+        # Bounds are compared with the literal in Python, the rows by the engine
+        # after its own casts. The two only agree for like-typed values: a
+        # Decimal('0.1') is smaller than the double 0.1 in Python but equal to it
+        # once the engine has cast it, and int/float mixes beyond 2**53 lose
+        # exactness on promotion. Anything else is left to the row filter.
+        literals = expr.value if expr.op in (FilterOp.IN, FilterOp.NOT_IN) else [expr.value]
+        try:
+            literals = [v for v in literals if v is not None]
+        except TypeError:
+            continue
+        if not all(
+            _comparable_for_pruning(v, file_min) and _comparable_for_pruning(v, file_max)
+            for v in literals
+        ):
+            continue
+
         # Check if filter condition is impossible given bounds
         try:
             if expr.op == FilterOp.EQ:
@@ -358,8 +374,17 @@ def _file_may_match(
             elif expr.op == FilterOp.IN:
                 # For IN: at least one value in the list must be in [file_min, file_max]
                 if expr.value:
+                    # The engine casts the value set to the COLUMN type: on a
+                    # 32-bit float column 0.1 becomes float32(0.1), which is
+                    # what the file (and its bounds) hold. Float bounds are
+                    # therefore widened by a float32 rounding step.
+                    lo, hi = file_min, file_max
+                    if isinstance(lo, float) and isinstance(hi, float):
+                        pad = max(abs(lo), abs(hi)) * 2.0 ** -22
+                        if pad == pad and pad != float("inf"):
+                            lo, hi = lo - pad, hi + pad
                     has_possible_match = any(
-                        file_min <= v <= file_max for v in expr.value
+                        lo <= v <= hi for v in expr.value if v is not None
                     )
                     if not has_possible_match:
                         return False
@@ -369,6 +394,22 @@ def _file_may_match(
             continue
 
     return True  # File may contain matches
+
+
+def _comparable_for_pruning(value: Any, bound: Any) -> bool:
+    """Whether comparing `value` with a stored bound in Python is guaranteed to
+    agree with the engine's comparison of `value` with the column."""
+    tv, tb = type(value), type(bound)
+    if tv is tb:
+        return True
+    if tv in (int, float) and tb in (int, float):
+        # exact in Python; the engine promotes both sides to double
+        limit = 2 ** 53
+        try:
+            return bool(abs(value) <= limit and abs(bound) <= limit)
+        except TypeError:
+            return False
+    return False
 
 
 def get_column_id_by_name(schema: "Schema", column_name: str) -> Optional[int]:
